@@ -26,8 +26,9 @@ enum Fault {
     CloseFrameKeepOpen,
     /// WebSocketClient only: a Text message (not a REPE frame at all), the peer staying up
     TextFrame,
-    /// WebSocketClient only: a binary message of 47 bytes (shorter than a header), the peer staying up
-    ShortBinary,
+    /// WebSocketClient only: a binary message of this many bytes (shorter than a header; below 12 it does not even
+    /// hold the id field), the peer staying up
+    ShortBinary(u8),
 }
 
 #[derive(Clone, Copy, Debug, PartialEq, Eq)]
@@ -163,7 +164,9 @@ fn scenarios(tier: Tier) -> Vec<Scenario> {
         for timed in [false, true] {
             v.push(Scenario::Failure { kind: Kind::Ws, inflight, timed, fault: Fault::CloseFrameKeepOpen });
             v.push(Scenario::Failure { kind: Kind::Ws, inflight, timed, fault: Fault::TextFrame });
-            v.push(Scenario::Failure { kind: Kind::Ws, inflight, timed, fault: Fault::ShortBinary });
+            for len in [0u8, 1, 8, 11, 12, 16, 47] {
+                v.push(Scenario::Failure { kind: Kind::Ws, inflight, timed, fault: Fault::ShortBinary(len) });
+            }
         }
     }
     v
@@ -273,16 +276,16 @@ async fn run_failure_sub(kind: Kind, inflight: usize, timed: bool, fault: Fault,
                 let _ = ws.send(tokio_tungstenite::tungstenite::Message::Text("not a REPE frame".into())).await;
             }
         }
-        Fault::ShortBinary => {
+        Fault::ShortBinary(len) => {
             if let clients::Peer::Ws { ws, .. } = &mut peer {
                 use futures_util::SinkExt;
-                let _ = ws.send(tokio_tungstenite::tungstenite::Message::Binary(vec![0x07; 47])).await;
+                let _ = ws.send(tokio_tungstenite::tungstenite::Message::Binary(vec![0x07; len as usize])).await;
             }
         }
     }
     memstream::settle().await;
     let mut flags = if inflight > 0 { 1 } else { 0 };
-    if matches!(fault, Fault::CloseFrameKeepOpen | Fault::TextFrame | Fault::ShortBinary) {
+    if matches!(fault, Fault::CloseFrameKeepOpen | Fault::TextFrame | Fault::ShortBinary(_)) {
         flags |= 256;
     }
     for (i, h) in calls.into_iter().enumerate() {
